@@ -158,7 +158,32 @@ def chk_corpus(case, note):
     return None
 
 
+def enum_threads(ctx):
+    for k in range(4 if ctx.tier == "quick" else 32):
+        if ctx.mine(k):
+            yield {"ctx_seed": ctx.rng("thr", k).getrandbits(32)}
+
+
+def chk_threads(case, note):
+    """four threads inside icao() at once on replies of different transponders (switch interval 1 us)"""
+    import random
+    from vlib import variants
+    rng = random.Random(case["ctx_seed"])
+    jobs = []
+    for _ in range(24):
+        addr = rng.getrandbits(24)
+        df = rng.choice(AP + AA)
+        m = build(addr, df, rng.choice([56, 112]), rng.getrandbits(83), rng.choice("UL"))
+        jobs.append(("icao", pms.icao, (m,), ("ok", "%06X" % addr)))
+    p = variants.hammer(jobs, nthreads=4, rounds=60)
+    note.evals = len(jobs) * 4 * 60
+    note.cls("concurrent-callers")
+    note.nt(True)
+    return p
+
+
 LEGS = [
+    Leg("threads", chk_threads, enum=enum_threads, shards_quick=4, shards_thorough=8, doc="concurrent callers of icao() with a 1 us switch interval"),
     Leg("corpus", chk_corpus, enum=enum_corpus, exhaustive=True, doc="real DF17/DF20/DF21 frames with their known addresses (upper and lower case)"),
     Leg("exact", chk_exact, strategy=s_exact, quick=30000, thorough=1000000, doc="every DF x both lengths x letter case"),
     Leg("canonical", chk_canon, strategy=s_canon, quick=16000, thorough=500000, doc="same address, two formats/cases -> same string"),
